@@ -408,6 +408,29 @@ pub fn txs_witness_classes() -> Vec<RTx> {
     out
 }
 
+/// Transactions whose ONLY witness data is one of the degenerate stacks ([[]], [[],[]], [[0]]) in the script
+/// or pegin witness of one input (pegin witness on pegin inputs), for 1..2 inputs.
+pub fn txs_degenerate_witness() -> Vec<RTx> {
+    let mut out = Vec::new();
+    let stacks: Vec<Vec<Vec<u8>>> = vec![vec![vec![]], vec![vec![], vec![]], vec![vec![0]], vec![vec![]; 253]];
+    for n_in in 1..=2usize {
+        for pos in 0..n_in {
+            for st in &stacks {
+                for which in 0..2 {
+                    let mut ins: Vec<RTxIn> = (0..n_in).map(|i| txin_rep(if which == 1 { InKind::Pegin } else { InKind::Plain }, i)).collect();
+                    if which == 0 {
+                        ins[pos].wit.script_wit = st.clone();
+                    } else {
+                        ins[pos].wit.pegin_wit = st.clone();
+                    }
+                    out.push(RTx { version: 2, lock_time: 0, ins, outs: vec![txout_rep(0)] });
+                }
+            }
+        }
+    }
+    out
+}
+
 /// Shape product: 0..=3 inputs x 0..=3 outputs, input kinds cycled through all 6^n assignments for
 /// n<=2 (and a covering subset for 3), versions/locktimes menu.
 pub fn txs_shapes() -> Vec<RTx> {
